@@ -19,6 +19,18 @@ CHECKS = {
         note='only ASTs produced by the parser are in scope (as the property states); texts the parser rejects are counted and skipped',
         ref='DESIGN.md section 4, C06',
     ),
+    'C08': dict(
+        technique='property-based differential evaluation: reference evaluator (exact rationals, three-valued connectives) on original vs simplify() output over a valuation grid; random type-directed terms plus exhaustive small-grammar enumeration',
+        level='bounded exploration with a semantic oracle: every term of a small grammar (thorough tier: all ~2.5e5; quick tier: a seed-dependent 1/40 slice) and thousands of random terms to depth 5, each on up to 64/256 valuations including 0, 1, -1, equal/unequal pairs and empty arrays; value equality wherever the original is defined, type preservation, predicate/vacuity rule, and the raise-only-for-zero-divisor rule',
+        note='the evaluator in hplverif/ev.py is the trusted meaning of expressions; it abstains (counted in evidence) on undefined originals, coinciding set elements under len/sum/prod, non-integer or reversed ranges, float near-ties and str() of computed numbers; closed sub-terms are size-bounded because simplify folds constants eagerly',
+        ref='DESIGN.md section 4, C08',
+    ),
+    'C09': dict(
+        technique='property-based differential evaluation of split_and() parts against the input with the reference evaluator, plus an own shape predicate for indivisibility; random boolean terms and exhaustive small propositional-plus-quantifier grammar',
+        level='bounded exploration with a semantic oracle: conjunction of the returned parts equals the input on every defined grid valuation (grid always contains empty arrays/sets as quantifier domains), every part boolean and indivisible by an independent structural predicate, ValueError only for an unsatisfiable input with a literal False',
+        note='trusts hplverif/ev.py (three-valued, order-independent connectives and quantifiers); depth <= 5 random, small grammar exhaustive in the thorough tier',
+        ref='DESIGN.md section 4, C09',
+    ),
     'C20': dict(
         technique='small-scope exhaustive enumeration against a 7-bit integer model (generated-input search with a reference model)',
         level='every one of the 128 type sets, 128^2 pairs and 128^3 triples is enumerated and compared with a bit-mask model; the space is finite, so on this tree the statement is checked completely (exhaustive: true)',
